@@ -300,7 +300,8 @@ pub const EV_GRANT: u32 = 24;
 pub const EV_RELEASE: u32 = 25;
 /// First kind number available to the harness' own (binding-side) events.
 /// A monotone page resource was reset: a = page resource id, b = new top (0: everything
-/// released), c = 1 for `reset_cursor`.
+/// released), c = 1 for `reset_cursor`.  For `RegionPageResource::reset_cursor`: b = new cursor of
+/// the region, c = end of the region, d = start of the region.
 pub const EV_PR_RESET: u32 = 26;
 pub const EV_USER_BASE: u32 = 1000;
 
